@@ -96,6 +96,16 @@ var scalars = []types.Value{
 	types.Long(9223372036854775807),  // 37
 	types.Long(-9223372036854775808), // 38
 	types.Long(1234567890123456789),  // 39
+	// a collision family at the top of the hash range (hash = 2^64-2 and 2^64-1): probing
+	// wraps around zero there
+	types.Long(-2),                      // 40
+	must(types.ParseDuration("-2ms")),   // 41
+	types.NewDatetimeFromMillis(-2),     // 42
+	must(types.ParseDecimal("-0.0002")), // 43
+	types.Long(-1),                      // 44
+	must(types.ParseDuration("-1ms")),   // 45
+	types.NewDatetimeFromMillis(-1),     // 46
+	must(types.ParseDecimal("-0.0001")), // 47
 }
 
 // canon maps a universe index to the index of the canonical spelling of the same value.
@@ -104,6 +114,9 @@ var canon = map[int]int{21: 15, 22: 18, 23: 18, 25: 24, 26: 24, 27: 4, 28: 4, 30
 const family = 8 // scalars[0..4] collide; 5..7 neighbours
 
 var familyIdx = []int{0, 1, 2, 3, 4, 5, 6, 7}
+
+// negFamilyIdx: members whose hash is 2^64-2 / 2^64-1 (wrap-around probing), plus 0 and 1
+var negFamilyIdx = []int{40, 41, 42, 43, 44, 45, 46, 6, 1}
 
 var keys = []types.String{"a", "b", "", "na me"}
 
@@ -244,9 +257,12 @@ func (h *heap) pickItem(t *verifsim.Tape, depth int) item {
 		return l.item
 	}
 	var i int
-	if t.Intn(3) != 2 {
+	switch t.Intn(4) {
+	case 0, 1:
 		i = familyIdx[t.Intn(len(familyIdx))]
-	} else {
+	case 2:
+		i = negFamilyIdx[t.Intn(len(negFamilyIdx))]
+	default:
 		i = t.Intn(len(scalars))
 	}
 	return item{scalars[i], mscalar(i)}
@@ -879,9 +895,33 @@ func (p Prop) Exhaustive(tier string, report func(string, uint64), fail func(*co
 	}
 	rec(nil)
 	report(fmt.Sprintf("sets built from every sequence of <= %d members of the 8-element hash-collision family", maxLen), count)
+	// the same over the wrap-around family
+	count = 0
+	fam := negFamilyIdx
+	var rec2 func(seq []int)
+	rec2 = func(seq []int) {
+		if len(seq) > 0 {
+			count++
+			sim.Steps = 0
+			if v := checkSequenceOver(seq, fam); v != nil && !failed {
+				failed = true
+				fail(v, fmt.Sprintf("enumerated member sequence over the wrap-around family (universe indices): %v", seq))
+			}
+		}
+		if len(seq) == 4 {
+			return
+		}
+		for _, i := range fam {
+			rec2(append(append([]int(nil), seq...), i))
+		}
+	}
+	rec2(nil)
+	report("sets built from every sequence of <= 4 members of the 9-element wrap-around family (hash 2^64-2, 2^64-1, 0, 1)", count)
 }
 
-func checkSequence(seq []int) *core.Violation {
+func checkSequence(seq []int) *core.Violation { return checkSequenceOver(seq, familyIdx) }
+
+func checkSequenceOver(seq []int, family []int) *core.Violation {
 	vals := make([]types.Value, len(seq))
 	var ms []*mval
 	for i, x := range seq {
@@ -893,7 +933,7 @@ func checkSequence(seq []int) *core.Violation {
 	if s.Len() != len(m.elems) {
 		return viol("set-length", "NewSet%v has Len %d, %d distinct members expected", seq, s.Len(), len(m.elems))
 	}
-	for _, i := range familyIdx {
+	for _, i := range family {
 		if s.Contains(scalars[i]) != mcontains(m, mscalar(i)) {
 			return viol("set-contains", "NewSet%v .Contains(u%d) = %v", seq, i, s.Contains(scalars[i]))
 		}
